@@ -17,6 +17,8 @@ import NB.Drv.C07
 import NB.Drv.C11
 import NB.Drv.C12
 import NB.Drv.C13
+import NB.Drv.C02
+import NB.Drv.C20
 
 def handlers : List (String × (String → List String → Option (String × String))) :=
   [ ("C01", NB.Drv.C01.handle),
@@ -32,7 +34,9 @@ def handlers : List (String × (String → List String → Option (String × Str
     ("C07", NB.Drv.C07.handle),
     ("C11", NB.Drv.C11.handle),
     ("C12", NB.Drv.C12.handle),
-    ("C13", NB.Drv.C13.handle) ]
+    ("C13", NB.Drv.C13.handle),
+    ("C02", NB.Drv.C02.handle),
+    ("C20", NB.Drv.C20.handle) ]
 
 def answer (line : String) : String :=
   match (line.trimAscii.toString.splitOn " ").filter (· ≠ "") with
